@@ -14,8 +14,10 @@ setup: gen coq driver props
 
 gen:
 	@mkdir -p _build coq/gen
-	@$(PY) gen/gen_tables.py >_build/gen.json || (cat _build/gen.json; exit 2)
-	@$(PY) gen/gen_callgraph.py >_build/gen_callgraph.json || (cat _build/gen_callgraph.json; exit 2)
+	@# a generator that cannot extract ITS table records the error in _build/gen*.json and leaves the previous
+	@# file in place; only the checks that need that table fail (harness/common.py: Check.regen_and_build)
+	@$(PY) gen/gen_tables.py >_build/gen.json || (cat _build/gen.json; test -f coq/gen/SevTable.v)
+	@$(PY) gen/gen_callgraph.py >_build/gen_callgraph.json || (cat _build/gen_callgraph.json; test -f coq/gen/CallGraph.v)
 	@$(PY) gen/gen_project.py
 	@cd coq && coq_makefile -f _CoqProject -o Makefile.coq >/dev/null
 
